@@ -88,6 +88,10 @@ def framework_hash():
             if f.is_file() and f.suffix in (".v", ".py", ".ml", ".rs", ".toml", ".sh", ".pdl", ".json", ".h", ".cc", ".java", ".md"):
                 if "__pycache__" in f.parts:
                     continue
+                # the judges (props/) and the developer tools only CONSUME stage data
+                rel = f.relative_to(ROOT).parts
+                if rel[:2] in (("harness", "props"), ("harness", "tools")):
+                    continue
                 h.update(str(f.relative_to(ROOT)).encode())
                 h.update(f.read_bytes())
     return h.hexdigest()[:16]
